@@ -346,6 +346,38 @@ pub fn gen(tier: &str, rng: &mut Rng, emit: &mut dyn FnMut(String)) {
             }
         }
     }
+    // interlocking selectors, enumerated: rule A constrains one dimension (weekday), rule B the same dimension by a
+    // LIST of ranges inside a restriction of another dimension (month, week, year) — same or different hours, both
+    // orders, both separators — evaluated on three whole weeks in different months and years.  The paving merges
+    // sibling columns by `is_val` on multi-range selectors; seed `C07-paving-single-column-fast-path` (about 1 in 5 000
+    // random expressions) was missed by the random sentences of the quick tier.
+    {
+        let weeks: Vec<i64> = [crate::ev::ymd(2024, 2, 5), crate::ev::ymd(2024, 6, 3), crate::ev::ymd(2025, 9, 1)].iter().flat_map(|d| *d..*d + 7).collect();
+        let days_s = weeks.iter().map(|d| d.to_string()).collect::<Vec<_>>().join(" ");
+        let r1s = ["Mo-Fr", "We", "Mo", "Tu"];
+        let r2s = ["Su", "Mo,We,Fr", "Tu,Th", "Mo,Th", "Mo-Fr,Su"];
+        let outers = ["Jan-Mar ", "Aug-Feb ", "week 01-10 ", "2024 ", "2024-2026 ", "Jan-Jun week 01-09 ", ""];
+        let times = [("09:00-17:00", "09:00-17:00"), ("14:00-17:00", "09:00-12:00"), ("", "")];
+        let mut k = 0usize;
+        for r1 in r1s {
+            for r2 in r2s {
+                for o in outers {
+                    for (ta, tb) in times {
+                        for sep in [" ; ", ", "] {
+                            k += 1;
+                            if !thorough && k % 3 != 0 {
+                                continue;
+                            }
+                            let a = format!("{r1} {ta}").trim().to_string() + if ta.is_empty() { " open" } else { "" };
+                            let b = format!("{o}{r2} {tb}").trim().to_string() + if tb.is_empty() { " open" } else { "" };
+                            emit(format!("nz.norm {} {days_s}", enc(&format!("{a}{sep}{b}"))));
+                            emit(format!("nz.norm {} {days_s}", enc(&format!("{b}{sep}{a}"))));
+                        }
+                    }
+                }
+            }
+        }
+    }
     // contexts with ONE of the two calendars only (the other empty), holiday-only rules
     for (i, e) in ["Mo-Fr 10:00-18:00; SH off", "Mo-Fr 10:00-18:00; PH off", "24/7; PH,SH off", "SH 10:00-12:00", "PH 10:00-12:00; Sa off",
         "Mo-Su 08:00-20:00; SH +1 day off", "PH -1 day 10:00-14:00; Mo off", "10:00-12:00; PH off || unknown"].iter().enumerate()
